@@ -100,7 +100,7 @@ def run(index, rep, tier):
 
     # ---- R02.5 symbol lookup precedence
     with rep.section("R02.5 symbol lookup precedence"):
-        rep.rule("R02.5", "taxon symbol lookup precedence: a TRANSLATE token is consulted before labels and taxon numbers, as the writer's translate tables require")
+        rep.rule("R02.5", "taxon symbol lookup precedence: TRANSLATE token, then label, then taxon number - the order the writer's output requires")
         lk = index.function(NP + ".NexusTaxonSymbolMapper.lookup_taxon_symbol")
         order = []
         for n in sorted((x for x in ast.walk(lk.node) if isinstance(x, ast.Attribute)), key=lambda x: (x.lineno, x.col_offset)):
@@ -109,6 +109,11 @@ def run(index, rep, tier):
         rep.check(bool(order) and order[0] == "token_taxon_map" and len(order) >= 2, "R02.5", lk.qualname, "lookup order %s" % order, fn_where(lk),
                   "lookup order: %s" % order,
                   "NexusTaxonSymbolMapper.lookup_taxon_symbol consults %s: a TRANSLATE token that equals another taxon's label (numeric labels!) resolves to the wrong taxon, silently permuting the leaf-to-taxon assignment of translated NEXUS trees" % order)
+        if "label_taxon_map" in order and any(o.startswith("number_taxon") for o in order):
+            li = order.index("label_taxon_map")
+            ni = min(i for i, o in enumerate(order) if o.startswith("number_taxon"))
+            rep.check(li < ni, "R02.5", lk.qualname, "labels consulted after taxon numbers: %s" % order, fn_where(lk), "labels are consulted before taxon numbers",
+                      "NexusTaxonSymbolMapper.lookup_taxon_symbol consults %s: the writer emits LABELS when no TRANSLATE table is used, so a taxon whose label is a digit string (label '2' held by the first taxon) must be found by label before the digits are read as a position; with numbers first such trees re-read with their taxa silently permuted" % order)
 
     # ---- R02.2
     with rep.section("R02.2"):
